@@ -78,11 +78,37 @@ impl Cfg {
             ("padding", match self.padding { Some(n) => n.to_string(), None => "null".into() }),
         ])
     }
-    /// options with a known (assigned elsewhere) defect: F-C01b (`max_lpc_order(32)` debug
-    /// assertion) and F-C01c (`max_partition_order >= 7` ArrayVec overflow)
-    pub fn hits_known_writer_defect(&self) -> bool {
-        self.lpc == Some(32) || self.po >= 7
+    /// configuration values with a known defect that is assigned to another builder and still
+    /// present in the tree under test (decided by `probe_known`, not by a list)
+    pub fn hits_known_writer_defect(&self, k: &Known) -> bool {
+        (self.lpc == Some(32) && k.lpc32) || (self.po >= 7 && k.po7) || (self.bps == 1 && k.bps1)
     }
+}
+
+/// Writer-side defects owned by the `writers` area (DESIGN F-C01b, F-C01c, F-C11a).  Each is
+/// probed on the tree under test: while the probe still panics the corresponding option value
+/// is left out of the C01 space (and reported in the stat line); once it is repaired the
+/// value is covered automatically.  `VERIF_ALLOW_KNOWN=1` disables the skipping.
+#[derive(Clone, Debug)]
+pub struct Known {
+    pub lpc32: bool,
+    pub po7: bool,
+    pub bps1: bool,
+}
+
+pub fn probe_known() -> Known {
+    if super::allow_known() {
+        return Known { lpc32: false, po7: false, bps1: false };
+    }
+    let mut rng = Rng::new(1, 0xBEEF);
+    let probe = |cfg: &Cfg, n: usize, rng: &mut Rng| -> bool {
+        let pcm = gen_pcm(rng, "walk", cfg.ch as usize, cfg.bps, n);
+        matches!(encode_to_vec(Writer::Samples, cfg, &pcm, &[pcm.len()]), Err(e) if e.starts_with("panic:"))
+    };
+    let lpc32 = probe(&Cfg { lpc: Some(32), bs: 64, ..Cfg::default() }, 64, &mut rng);
+    let po7 = probe(&Cfg { po: 7, bs: 128, ..Cfg::default() }, 128, &mut rng);
+    let bps1 = probe(&Cfg { bps: 1, bs: 16, ..Cfg::default() }, 16, &mut rng);
+    Known { lpc32, po7, bps1 }
 }
 
 /// Sample rates covering every header coding.
@@ -132,17 +158,20 @@ pub fn pick_bs(rng: &mut Rng, small_bias: bool) -> u16 {
 
 pub const WINDOWS: &[Win] = &[Win::Rect, Win::Hann, Win::Tukey(0.5), Win::Tukey(0.0), Win::Tukey(1.0), Win::Tukey(0.01), Win::Tukey(0.99), Win::Tukey(-1.0), Win::Tukey(f32::NAN), Win::Tukey(2.0)];
 
-pub fn random_cfg(rng: &mut Rng, allow_known: bool) -> Cfg {
+pub fn random_cfg(rng: &mut Rng, k: &Known) -> Cfg {
+    let allow32 = !k.lpc32;
+    let allow_po = !k.po7;
     let ch = match rng.below(6) { 0 | 1 => 1, 2 | 3 => 2, _ => rng.range(1, 8) as u8 };
     let bps = match rng.below(6) { 0 => *rng.pick(&[8u32, 16, 24, 32]), 1 => *rng.pick(&[12u32, 20]), 2 => *rng.pick(&[1u32, 2, 3, 4, 31, 32, 17, 15]), _ => rng.range(1, 32) as u32 };
+    let bps = if bps == 1 && k.bps1 { 2 } else { bps };
     let lpc = match rng.below(8) {
         0 | 1 => None,
         2 => Some(1),
-        3 => Some(if allow_known { 32 } else { 31 }),
+        3 => Some(if allow32 { 32 } else { 31 }),
         4 => Some(*rng.pick(&[8u8, 12, 16])),
-        _ => Some(rng.range(1, if allow_known { 32 } else { 31 }) as u8),
+        _ => Some(rng.range(1, if allow32 { 32 } else { 31 }) as u8),
     };
-    let po = if allow_known { rng.range(0, 15) as u32 } else { rng.range(0, 6) as u32 };
+    let po = if allow_po { rng.range(0, 15) as u32 } else { rng.range(0, 6) as u32 };
     Cfg {
         ch,
         bps,
@@ -161,7 +190,7 @@ pub fn random_cfg(rng: &mut Rng, allow_known: bool) -> Cfg {
 
 // ---------------------------------------------------------------- PCM shapes
 /// PCM kinds beyond `vharness::PCM_KINDS`
-pub const EXTRA_KINDS: &[&str] = &["min_adjacent", "steps", "outliers", "alt_small", "stereo_equal", "stereo_opposite", "lpc_friendly", "impulse"];
+pub const EXTRA_KINDS: &[&str] = &["min_adjacent", "steps", "outliers", "alt_small", "stereo_equal", "stereo_opposite", "lpc_friendly", "impulse", "small", "poly"];
 
 pub fn all_kinds() -> Vec<&'static str> {
     let mut v: Vec<&'static str> = PCM_KINDS.to_vec();
@@ -184,11 +213,11 @@ pub fn gen_pcm_ext(rng: &mut Rng, kind: &str, ch: usize, bps: u32, frames: usize
         for i in 0..frames {
             let v: i64 = match kind {
                 // values next to the most negative number, with isolated minima
-                "min_adjacent" => if rng.chance(1, 30) { min } else if rng.chance(1, 2) { min + 1 } else { rng.range(0, 1.min(max)) },
+                "min_adjacent" => if rng.chance(1, 30) { min } else if rng.chance(1, 2) { min + 1 } else { rng.range(0, 1i64.min(max)) },
                 "steps" => { if i % step_every == 0 { level = rng.range(min, max); } level }
                 // mostly tiny values, rare full-scale outliers: makes the Rice estimate wrong
-                "outliers" => if rng.chance(1, 97) { if rng.chance(1, 2) { max } else { min } } else { rng.range(-1.max(min), 1.min(max)) },
-                "alt_small" => if i % 2 == 0 { 1.min(max) } else { -1.max(min) },
+                "outliers" => if rng.chance(1, 97) { if rng.chance(1, 2) { max } else { min } } else { rng.range((-1i64).max(min), 1i64.min(max)) },
+                "alt_small" => if i % 2 == 0 { 1i64.min(max) } else { (-1i64).max(min) },
                 "stereo_equal" | "stereo_opposite" => rng.range(min, max),
                 "lpc_friendly" => {
                     // a decaying resonance: well predicted by a low-order LPC
@@ -196,6 +225,14 @@ pub fn gen_pcm_ext(rng: &mut Rng, kind: &str, ch: usize, bps: u32, frames: usize
                     ((t * 0.3).sin() * (t * 0.011).cos() * (max as f64) * 0.7) as i64 + rng.range(-2, 2)
                 }
                 "impulse" => if i == frames / 2 { max } else { 0 },
+                // small values around zero: lets every FIXED order and tiny partitions compete
+                "small" => rng.range((-9i64).max(min), 9i64.min(max)),
+                // low-degree polynomial plus a little noise: high FIXED orders win
+                "poly" => {
+                    let t = i as i64;
+                    let (a, b, c0) = ((base % 5) - 2, (base % 7) - 3, base % 23 - 11);
+                    a * t * t + b * t + c0 + rng.range(-1, 1)
+                }
                 _ => 0,
             };
             out[i * ch + c] = clamp(v);
